@@ -217,9 +217,10 @@ def unfold(bspec):
 
 
 class BProgGen(X.ProgGen):
-    def __init__(self, rng, ntasks, nb, **kw):
+    def __init__(self, rng, ntasks, nb, indep=0.0, **kw):
         X.ProgGen.__init__(self, rng, ntasks, clean=True, **kw)
         self.nb = nb
+        self.indep = indep          # probability that a task takes no task argument at all (only barriers order it)
         self.stmts = []
         self.nbv = 0
         self.bv_kinds = []
@@ -242,10 +243,16 @@ class BProgGen(X.ProgGen):
                     self.stmts.append(['bvalue', rng.randrange(i) if rng.random() < 0.5 else i - 1])
                     self.nbv += 1
             k = self.pick_fn()
-            nargs = rng.choice([0, 1, 1, 2, 2]) if i > 0 else rng.choice([0, 1])
-            args = [self.gen_arg(i) for _ in range(nargs)]
-            names = sorted(rng.sample(X.KWNAMES[:3], rng.choice([0, 0, 1]))) if i > 0 else []
-            kwargs = [[n, self.gen_arg(i)] for n in names]
+            if i > 0 and rng.random() < self.indep:
+                args = [['val', X._gen_plain(rng, 1)] for _ in range(rng.choice([0, 1]))]
+                if self.nbv and rng.random() < 0.3:
+                    args.append(['bval', rng.randrange(self.nbv)])
+                kwargs = []
+            else:
+                nargs = rng.choice([0, 1, 1, 2, 2]) if i > 0 else rng.choice([0, 1])
+                args = [self.gen_arg(i) for _ in range(nargs)]
+                names = sorted(rng.sample(X.KWNAMES[:3], rng.choice([0, 0, 1]))) if i > 0 else []
+                kwargs = [[n, self.gen_arg(i)] for n in names]
             ts = {'fn': k, 'args': args, 'kwargs': kwargs}
             self.tasks.append(ts)
             self.stmts.append(['task', ts])
@@ -462,19 +469,21 @@ def oracle_barrier(sc, res):
         out += X.oracle_complete(res)
         out += X.oracle_c02(tr, clean_complete=True, ntasks=res.ntasks, prefilled=set(t - 1 for t in pre))
     out += X.oracle_sound(res)
-    # a worker that left with work undone saw something missing since its last own dump (the reload loop gives up after
-    # passes in which IT executed nothing; "since its last action" is too strong for the real loop: the re-check after a failed
-    # lock() may already see the result, and the barrier is looked at before the pass's lock attempts)
+    # a worker that left with work undone lost the lock of each such task to somebody else or saw something missing since its last
+    # own dump (the reload loop gives up after passes in which IT executed nothing; "since its last action" is too strong for the
+    # real loop: the re-check after a failed lock() may already see the result, and the barrier is looked at before the lock attempts)
     stored = set(pre)
-    missing_seen = {}
+    missing_seen, lost = {}, {}
     for i, e in enumerate(tr):
         if e[0] == 'EDump':
             stored.add(e[2])
             missing_seen[e[1]] = []
         if e[0] == 'ECanLoad' and not e[3]:
             missing_seen.setdefault(e[1], []).append(e[2])
+        if e[0] == 'ELock' and not e[3]:
+            lost.setdefault(e[1], set()).add(e[2])
         if e[0] == 'EExit' and e[2] == 0:
-            undone = [t for t in range(1, res.ntasks + 1) if t not in stored]
+            undone = [t for t in range(1, res.ntasks + 1) if t not in stored and t not in lost.get(e[1], set())]
             if undone and not missing_seen.get(e[1]):
                 out.append({'what': 'a worker gave up with tasks undone without having seen anything missing since its last own dump',
                             'worker': e[1], 'undone': undone, 'at': i})
@@ -585,7 +594,7 @@ def scenarios(ck, n):
                'phases': [{'workers': [{'nr_wait': 3}, {'nr_wait': 3}], 'policy': {'base': 'rr'}}]}
     for i in range(n):
         nt = rng.randint(2, 8)
-        bspec = gen_bprogram(rng, nt, rng.randint(1, 3), rich=rng.choice([0.2, 0.5]), chainy=rng.choice([0.3, 0.6])) if rng.random() < 0.8 else \
+        bspec = gen_bprogram(rng, nt, rng.randint(1, 3), rich=rng.choice([0.2, 0.5]), chainy=rng.choice([0.3, 0.6]), indep=rng.choice([0.0, 0.0, 0.6, 0.9])) if rng.random() < 0.8 else \
             small_bprogram(rng.choice(['b2', 'b3', 'bv3', 'bb4']))
         spec, extra, _ = unfold(bspec)
         nt = len(spec['tasks'])
@@ -598,14 +607,32 @@ def scenarios(ck, n):
         elif r < 0.7:
             pre = sorted(rng.sample(range(nt), rng.randint(1, nt)))      # NOT dependency-closed: an upstream result is missing
         else:
-            holes = set(rng.sample(range(nt), rng.randint(1, min(2, nt))))     # a complete store that lost one or two results
-            pre = [i for i in range(nt) if i not in holes]
+            # a store in which the phases up to some barrier / bvalue were completed (or everything was) and one or two results got lost
+            marks = [k for k, st in enumerate(bspec['stmts']) if st[0] != 'task']
+            upto = nt
+            if marks and rng.random() < 0.75:
+                upto = max(1, sum(1 for st in bspec['stmts'][:rng.choice(marks)] if st[0] == 'task'))
+            holes = set(rng.sample(range(upto), rng.randint(1, min(2, upto))))
+            pre = [i for i in range(upto) if i not in holes]
         pol = X.gen_policy(rng, nw)
         if rng.random() < 0.6:
             # whoever executes one of the tasks in front of a barrier / bvalue is parked inside it while the others go on
-            marks = [k for k, st in enumerate(bspec['stmts']) if st[0] != 'task']
-            upto = sum(1 for st in bspec['stmts'][:marks[rng.randrange(len(marks))]] if st[0] == 'task') if marks else nt
-            cands = [i for i in range(max(1, upto)) if i not in pre] or [0]
+            waited = set()
+            for i, ts in enumerate(spec['tasks']):
+                waited |= X.task_deps_spec(ts) | set(extra.get(i, []))
+            cands = [i for i in sorted(waited) if i not in pre] or [i for i in range(nt) if i not in pre] or [0]
+            # prefer a task in front of the first barrier / bvalue that is still closed: that is what the others are waiting at
+            ntask = 0
+            for st in bspec['stmts']:
+                if st[0] == 'task':
+                    ntask += 1
+                elif any(i not in pre for i in range(ntask)):
+                    front = [c for c in cands if c < ntask]
+                    if front and rng.random() < 0.75:
+                        cands = front
+                    break
+            if len(cands) > 1 and rng.random() < 0.6:
+                cands = cands[:-1]          # not the one defined last: the others are the ones a sloppy barrier would overlook
             pol = {'seed': rng.randrange(1 << 30), 'base': rng.choice(['random', 'rr']), 'flavour': 'stalled-task',
                    'stall_task': [[rng.choice(['ret', 'ret', 'dump', 'start', 'unlock']), rng.choice(cands) + 1, rng.choice([60, 200, 600])]]}
         yield {'bprogram': bspec, 'backend': X.pick_backend(rng, (5, 2, 1, 2)), 'prefill': pre, 'keep_going': False, 'keep_failed': False,
